@@ -200,6 +200,32 @@ def run(ctx, R):
                 R.ok("C19.R5", f.short, k, l, "set-valued on both channels")
             else:
                 R.violation("C19.R5", f.short, k, l, f"--{L['key']} is a set on the command line but stored as given (a list) from the file")
+    # the dictionary the loaders read is the parsed file itself: a re-binding that drops entries
+    # by their *value* (falsy values, None, ...) makes the file lose against the command line
+    # for exactly those values
+    cname = None
+    for st in ast.walk(cfgtry):
+        if isinstance(st, ast.Assign) and isinstance(st.targets[0], ast.Name) and isinstance(st.value, ast.Call):
+            d_ = ctx.m.dotted(cfgf.rel, st.value.func) if isinstance(st.value.func, (ast.Name, ast.Attribute)) else None
+            if d_ and d_.split(".")[-1] in ("load", "loads"):
+                cname = st.targets[0].id
+    rebinds = [st for st in ctx.m.walk_own(cfgf.node) if isinstance(st, ast.Assign) and any(isinstance(t, ast.Name) and t.id == cname for t in st.targets) and not (isinstance(st.value, ast.Call) and (ctx.m.dotted(cfgf.rel, st.value.func) or "").split(".")[-1] in ("load", "loads"))]
+    if not rebinds:
+        R.ok("C19.R2", cfgf.short, "the loaders read the parsed file unfiltered", loc(cfgf, cfgf.node))
+    for st in rebinds:
+        v = st.value
+        k = key(cfgf, st)
+        if isinstance(v, ast.DictComp) and len(v.generators) == 1 and isinstance(v.generators[0].target, ast.Tuple) and len(v.generators[0].target.elts) == 2:
+            kv, vv = v.generators[0].target.elts
+            vname = vv.id if isinstance(vv, ast.Name) else None
+            by_value = [c for c in v.generators[0].ifs if vname and any(isinstance(x, ast.Name) and x.id == vname for x in ast.walk(c))]
+            changed = not (isinstance(v.value, ast.Name) and v.value.id == vname)
+            if by_value or changed:
+                R.violation("C19.R2", cfgf.short, k, loc(cfgf, st), "entries of the configuration file are dropped or rewritten depending on their value before the loaders see them: for those values (false, 0, \"\", [] ...) the file no longer wins over the command line")
+            else:
+                R.ok("C19.R2", cfgf.short, k, loc(cfgf, st), "re-binding filters by key only")
+        else:
+            R.undecided("C19.R2", cfgf.short, k, loc(cfgf, st), "the configuration dictionary is re-bound in a way the rule does not recognise")
     # ---------------------------------------------------------------- R3
     f, t = cfgf, cfgtry
     need = {"OSError": "an unreadable or vanished file", "ValueError": "invalid JSON / undecodable bytes"}
